@@ -266,7 +266,7 @@ func (fdef *reflectByField) get() (reflect.Value, error) {
 	} else {
 		return v, fmt.Errorf("%s has no recognized way to get value", fdef.m.Ident())
 	}
-	if fdef.opts.IgnoreEmpty && reflectIsEmpty(v) {
+	if fdef.opts.IgnoreEmpty && reflectIsEmpty(v) && !isListKey(fdef.m) {
 		return reflect.Value{}, nil
 	}
 	return v, nil
